@@ -7,7 +7,8 @@ CHECK = {'level': 'exploration',
          '50-200 ms, sleeps, wait-for-expiry, 24 sequences in parallel per rapid case) plus concurrent writers/readers. (b) end-to-end scenarios of 2-3 '
          'started p2p.Connections on distinct loopback IPs (127.0.0.2-9, ::1; security none/tls/noise; rate limit 2-6 with penalty 10-120): '
          'undecodable and unknown-procedure request/response envelopes on raw streams, bursts within/exactly at/above the rate limit, handler-issued '
-         'ApplyPenalty/BanPeer, blacklisted peers, dials in both directions during and after the ban, third parties, legal-only traffic across '
+         'ApplyPenalty/BanPeer, blacklisted peers, a peer without listen addresses (dial-only, connected inbound from 127.0.0.1 which it never '
+         'announces; outbound attempts towards its IP probed against a closed port), dials in both directions during and after the ban, third parties, legal-only traffic across '
          'rate-window resets. Non-trivial = (timed gater) an IP crossed the threshold by accumulation, was queried while certainly banned and again '
          'after the ban was seen over; (untimed gater) crossed by accumulation and queried while banned; (end-to-end) a ban caused by traffic with a '
          'refused dial during the ban and an accepted one after it, or a legal-only scenario that filled a rate window exactly; (concurrent) >= 2 '
